@@ -1,4 +1,5 @@
 -- Root of the RF library: imports every property file (kept current by hand).
+import RF.Props.C07
 import RF.Props.C09
 import RF.Props.C12
 import RF.Props.C18
